@@ -45,3 +45,25 @@ var round9Explanations = map[string]string{
 	"C19": " (R10) every json.Unmarshal into a local pkg/config/v2 value in pkg/mosn, pkg/configmanager, pkg/config/v2 targets a value with no earlier store.",
 	"C20": " (G4) the bytes DumpJSON and the other encoders return are not storage given back to a pool; R1 follows a package helper that encodes its parameter.",
 }
+
+// Clauses added in round 10 and with the repairs of the side findings (round 11).
+var round10Explanations = map[string]string{
+	"C01": " (R12) HTTP/2: HPACK encoding and the HEADERS/CONTINUATION writes run under one hold of the connection mutex. (R13) the query variable is set whenever the request target has a query component, and the '?' of the upstream URL is decided on the variable being set, not on its content.",
+	"C02": " (R17) a header block is fed to the connection HPACK decoder once, after all of it arrived. (R18) in clientStreamConnection.serve a bufio.Reader.Buffered() result, computed after the response was read, decides a branch from which OnGoAway is reachable.",
+	"C03": " (R12) cleanStream is called only where the exchange has a terminal outcome. (R13) every store of true to downStream.upstreamRequestSent outside onUpstreamRequestSent is reached only through the true edge of a test of that flag or after a call of onUpstreamRequestSent. (R14) in the constant-bounded loop around downStream.receive the net increment of the round counter on every back edge taken in the Retry phase is at most 0.",
+	"C04": " (R11) findVirtualHost is evaluated as a decision table over the finite domain {-1, other} for the configured default index and the lookup result: with a default configured no path returns nil. (R12) on the success return of splitHostPortGraceful that does not come from net.SplitHostPort the host is not the raw argument on every path. (R13) the result of ParseToVariableMatchItem is stored only on its non-nil edge. (R14) every store into RPCRouteRuleImpl.fastmatch lies behind the false edge of the matcher's Regex flag.",
+	"C05": " (R10) the balancer a snapshot publishes is built from the host set the same snapshot publishes. (R4) a retry loop over a scheduler may be bounded by k x Size(), k >= 1.",
+	"C06": " (R7) as C05.R10, including the weights. (R2) the clusterWeight stored for a name is Weight plus the looked-up entry's clusterWeight (phi of Weight on the miss edge and the sum, or the sum over the zero value). (R8) the loop around scheduler.NextAndPush is bounded by k x Size() with k >= MaxHostWeight/MinHostWeight.",
+	"C08": " (B11) for every error MFramer.ReadFrame passes on from a frame parser or from readMetaFrame: no path from the failing call to the return avoids both Drain and the false edge of a StreamError type test of that error.",
+	"C10": " (DECODE) downStream.receive is statically reachable from OnReceive and from OnDecodeError (closures included). (RESET) no ResetStream/DestroyStream call in pkg/stream/xprotocol is reachable from a Lock of clientMutex/serverMutex without passing its Unlock.",
+	"C11": " (O14) no bytes.NewBuffer over a MakeSlice of non-zero length is afterwards written to (Write*, ReadFrom, io.Copy destination). (O15) every IsUnspecified asked of the configured listener IP in ParseListenerConfig (or in a package helper given that IP) is evaluated only where len(ip) != 0.",
+	"C12": " (R4) RemoveListeners drops the listener and calls, in the same block and with the same name, a configmanager function that deletes from conf.Listener. (R8) for an existing listener no error return of AddOrUpdateListener is reachable from a call that replaces the listener's filter factories.",
+	"C13": " (R15) the index argument of NewProvider inside the loops over a listener's contexts depends on a loop-carried value.",
+	"C14": " (R9) from the store that consumes directResponse in processError every path to a return stores InitPhase into receiverFiltersAgainPhase (or such a store dominates the consumption).",
+	"C15": " (R15) at every call of doMetadataCombination the facts of the dominating guards prove idx < len(keys) (or the callee tests it itself).",
+	"C16": " (R5) in the receive case of the timeout channel a condition computed from the received value lies between the receive and HandleFailure (or a non-blocking receive drains the channel elsewhere).",
+	"C17": " (R15) the store of NumRetries() into retiesRemaining is conditional only on comparisons of NumRetries() with 0. (R16) every declared FinalizeRequestHeaders of a type embedding RouteRuleImplBase reaches RouteRuleImplBase.finalizeRequestHeaders. (R17) a rule type whose Match uses strings.EqualFold hands finalizePathHeader a value that can come from variable.GetString. (R7) a retry may reach the global-timer arming only through a call guarded by the false edge of upstreamRequestSent into the function that sets that flag.",
+	"C18": " (W15) the edge of parseHeadersFrame that leads only to streamError returns implies fragment length <= -1 (linear facts). (W16) SetMaxDynamicTableSize is reachable, guarded by ID == SettingHeaderTableSize, from MClientConn.processSettings and serverConn.processSetting.",
+	"C19": " (R13) every field of v2.ClusterManagerConfigJson other than the cluster lists is stored from the same field of the argument in SetMosnConfig (into the rebuilt section or a same-named field of the stored config).",
+	"C20": " (R6) every []v2.ExtendConfig arm of getMOSNConfigRedacted and the ExtendConfigs field of redactedCopy's result take the result of a function from which a \"private_key\" key comparison and a placeholder store are reachable. (R3) a write through a tree handed in as a parameter is lifted to the call sites; a local interface value filled only by encoding/json is fresh.",
+}
